@@ -31,11 +31,12 @@ class Live:
         self.items = []          # (kind, obj, label)
         self.ids = set()
 
-    def add(self, kind, obj, label=""):
+    def add(self, kind, obj, label="", always=False):
         if obj is None:
             return
         key = (kind, id(obj))
-        if key in self.ids or len(self.items) >= 400:
+        # whole documents, steps and accumulators are always tracked; their parts up to a cap
+        if key in self.ids or (len(self.items) >= 400 and not always) or len(self.items) >= 900:
             return
         self.ids.add(key)
         self.items.append((kind, obj, label))
@@ -76,7 +77,7 @@ class Live:
         return out
 
     def hold_node(self, node, depth=0):
-        self.add("node", node)
+        self.add("node", node, always=depth == 0)
         self.add("attrs", node.attrs)
         self.add("marklist", node.marks)
         for m in node.marks:
@@ -118,159 +119,199 @@ def session(b, sch, js, rng, start_docs, slices, tid, ncalls, dom=None):
 
     b.add({"ev": "Snap", "tid": tid, "seq": 0, "op": "init", "snaps": live.snapshot()})
     for seq in range(1, ncalls + 1):
-        kind = rng.choice(["op", "op", "op", "step", "step", "query", "replace", "marks", "json", "mapping", "newtr", "dom", "stepalg"])
-        doc = rng.choice(docs)
-        n = doc.content.size
-        f = rng.randint(0, n)
-        t = rng.randint(f, n)
-        name = kind
-        if kind == "op":
-            tr = rng.choice(trs)
-            nm, args, thunk = og.pick(tr)
-            name = "Transform." + nm
-            call(name, thunk)
-            docs.append(tr.doc)
-            live.hold_node(tr.doc)
-            for s in tr.steps[-3:]:
-                live.add("step", s)
-                held_steps.append(s)
-            for m in tr.mapping.maps[-3:]:
-                live.add("stepmap", m)
-        elif kind == "newtr":
-            tr = Transform(doc)
-            trs.append(tr)
-            live.add("transform", tr)
-            live.add("mapping", tr.mapping)
-        elif kind == "step":
-            st = sg.random_step(doc)
-            live.add("step", st)
-            held_steps.append(st)
-            name = "Step.apply/" + steps.pstep(st)["type"]
-            r = call(name, lambda: st.apply(doc))
-            if r is not None and r.doc is not None:
-                docs.append(r.doc)
-                live.hold_node(r.doc)
-                inv = call("Step.invert", lambda: st.invert(doc))
+        name = "?"
+        try:
+            kind = rng.choice(["op", "op", "op", "step", "step", "query", "replace", "marks", "json", "mapping", "newtr", "dom", "stepalg", "helpers", "helpers"])
+            doc = rng.choice(docs)
+            n = doc.content.size
+            f = rng.randint(0, n)
+            t = rng.randint(f, n)
+            name = kind
+            if kind == "op":
+                tr = rng.choice(trs)
+                nm, args, thunk = og.pick(tr)
+                name = "Transform." + nm
+                call(name, thunk)
+                docs.append(tr.doc)
+                live.hold_node(tr.doc)
+                for s in tr.steps[-3:]:
+                    live.add("step", s)
+                    held_steps.append(s)
+                for m in tr.mapping.maps[-3:]:
+                    live.add("stepmap", m)
+            elif kind == "newtr":
+                tr = Transform(doc)
+                trs.append(tr)
+                live.add("transform", tr)
+                live.add("mapping", tr.mapping)
+            elif kind == "step":
+                st = sg.random_step(doc)
+                live.add("step", st)
+                held_steps.append(st)
+                name = "Step.apply/" + steps.pstep(st)["type"]
+                r = call(name, lambda: st.apply(doc))
+                if r is not None and r.doc is not None:
+                    docs.append(r.doc)
+                    live.hold_node(r.doc)
+                    inv = call("Step.invert", lambda: st.invert(doc))
+                    if inv is not None:
+                        live.add("step", inv)
+                        r2 = call("Step.apply(inverse)", lambda: inv.apply(r.doc))
+                        if r2 is not None and r2.doc is not None:
+                            live.hold_node(r2.doc)
+                    sm = call("Step.get_map", st.get_map)
+                    live.add("stepmap", sm)
+            elif kind == "stepalg" and len(held_steps) >= 2:
+                a, c = rng.sample(held_steps, 2)
+                name = "Step.merge/map"
+                m = call("Step.merge", lambda: a.merge(c))
+                if m is not None:
+                    live.add("step", m)
+                mm = call("Step.map", lambda: a.map(c.get_map()))
+                if mm is not None:
+                    live.add("step", mm)
+            elif kind == "query":
+                name = "queries"
+
+                def q():
+                    rp = doc.resolve(f)
+                    rp.marks()
+                    rp.node_after
+                    rp.node_before
+                    rp.block_range(doc.resolve(t))
+                    doc.nodes_between(f, t, lambda *a: None)
+                    doc.text_between(f, t, "\n", "*")
+                    doc.node_at(f)
+                    doc.check()
+                    doc.content.find_diff_start(rng.choice(docs).content)
+                    doc.content.find_diff_end(rng.choice(docs).content)
+                    doc.can_replace(0, doc.child_count, rng.choice(docs).content)
+                    doc.type.content_match.fill_before(doc.content, True)
+                call(name, q)
+            elif kind == "helpers":
+                name = "structure helpers"
+                from prosemirror.transform import can_join, can_split, drop_point, find_wrapping, insert_point, join_point, lift_target
+                from prosemirror.transform.structure import NodeTypeWithAttrs
+                nts = [nt for nt in sch.nodes.values() if not nt.is_text and not nt.has_required_attrs()]
+
+                def h():
+                    for p in range(n + 1):
+                        full = p % 7 == 0        # the other helpers at a sample of positions
+                        for depth in (1, 2, 3):
+                            can_split(doc, p, depth)
+                            rp = doc.resolve(p)
+                            tas = [[NodeTypeWithAttrs(rng.choice(nts)) for _ in range(rng.randint(1, depth))]]
+                            if rp.depth >= depth:
+                                # the shape editor commands pass: the types of the nodes being split (e.g. [list_item, paragraph])
+                                own = [NodeTypeWithAttrs(rp.node(rp.depth - depth + 1 + j).type, dict(rp.node(rp.depth - depth + 1 + j).attrs) or None) for j in range(depth)]
+                                tas += [own, own[:1]]
+                            for ta in tas:
+                                try:
+                                    can_split(doc, p, depth, ta)
+                                except Exception:  # noqa: BLE001 - an odd types_after list may be refused; state must still be intact
+                                    pass
+                        if not full:
+                            continue
+                        q = min(n, p + rng.randint(0, 5))
+                        for fn in (lambda: can_join(doc, p), lambda: join_point(doc, p, rng.choice([-1, 1])),
+                                   lambda: insert_point(doc, p, rng.choice(nts)),
+                                   lambda: drop_point(doc, p, rng.choice(slices)) if slices else None,
+                                   lambda: lift_target(doc.resolve(p).block_range(doc.resolve(q))) if doc.resolve(p).block_range(doc.resolve(q)) is not None else None,
+                                   lambda: find_wrapping(doc.resolve(p).block_range(doc.resolve(q)), rng.choice(nts)) if doc.resolve(p).block_range(doc.resolve(q)) is not None else None):
+                            try:
+                                fn()
+                            except Exception:  # noqa: BLE001 - a raising helper is C12's business; here only state matters
+                                pass
+                    Slice.max_open(doc.content, rng.random() < 0.5)
+                call(name, h)
+            elif kind == "replace":
+                name = "Node.slice/cut/replace"
+                sl = call("Node.slice", lambda: doc.slice(f, t))
+                if sl is not None:
+                    live.add("slice", sl)
+                    live.add("frag", sl.content)
+                fr = call("Fragment.cut", lambda: doc.content.cut(f, t))
+                if fr is not None:
+                    live.add("frag", fr)
+                other = rng.choice(slices) if slices else Slice.empty
+                d2 = call("Node.replace", lambda: doc.replace(f, t, other))
+                if d2 is not None:
+                    docs.append(d2)
+                    live.hold_node(d2)
+                ap = call("Fragment.append", lambda: doc.content.append(rng.choice(docs).content))
+                if ap is not None:
+                    live.add("frag", ap)
+                if doc.child_count:
+                    rc = call("Fragment.replace_child", lambda: doc.content.replace_child(0, rng.choice(docs).child(0) if rng.choice(docs).child_count else doc.child(0)))
+                    live.add("frag", rc)
+                    live.add("frag", call("Fragment.add_to_start", lambda: doc.content.add_to_start(doc.child(0))))
+                    live.add("frag", call("Fragment.add_to_end", lambda: doc.content.add_to_end(doc.child(0))))
+                    live.add("frag", call("Fragment.from_array", lambda: Fragment.from_array([doc.child(i) for i in range(doc.child_count)])))
+            elif kind == "marks":
+                name = "Mark set ops"
+                m = sg.mark()
+                if m is not None:
+                    live.add("mark", m)
+                    ms = rng.choice(marksets)
+                    r = call("Mark.add_to_set", lambda: m.add_to_set(ms))
+                    if r is not None:
+                        live.add("marklist", r)
+                        marksets.append(r)
+                    r = call("Mark.remove_from_set", lambda: m.remove_from_set(ms))
+                    if r is not None:
+                        live.add("marklist", r)
+                    live.add("marklist", call("Mark.set_from", lambda: Mark.set_from(list(reversed(ms)))))
+                    pt = rng.choice(list(sch.nodes.values()))
+                    live.add("marklist", call("NodeType.allowed_marks", lambda: pt.allowed_marks(ms)))
+            elif kind == "json":
+                name = "to_json/from_json"
+                j = call("Node.to_json", doc.to_json)
+                if j is not None:
+                    y = call("Node.from_json", lambda: Node.from_json(sch, json.loads(json.dumps(j))))
+                    if y is not None:
+                        live.hold_node(y)
+                    scramble(j)      # the returned JSON belongs to the caller
+                if held_steps:
+                    st = rng.choice(held_steps)
+                    js_ = call("Step.to_json", st.to_json)
+                    if js_ is not None:
+                        y = call("Step.from_json", lambda: Step.from_json(sch, json.loads(json.dumps(js_))))
+                        live.add("step", y)
+                        scramble(js_)
+                if slices:
+                    sl = rng.choice(slices)
+                    j2 = call("Slice.to_json", sl.to_json)
+                    if j2 is not None:
+                        scramble(j2)
+            elif kind == "mapping":
+                name = "Mapping ops"
+                tr = rng.choice(trs)
+                mp = tr.mapping
+                call("Mapping.map", lambda: [mp.map(p) for p in range(0, n + 1, 3)])
+                sl_ = call("Mapping.slice", lambda: mp.slice(0, len(mp.maps) // 2))
+                cp = call("Mapping.copy", mp.copy)
+                if cp is not None:
+                    live.add("mapping", cp)
+                    call("Mapping.append_mapping", lambda: cp.append_mapping(mp))
+                    call("Mapping.append_mapping_inverted", lambda: cp.append_mapping_inverted(mp))
+                inv = call("Mapping.invert", mp.invert)
                 if inv is not None:
-                    live.add("step", inv)
-                    r2 = call("Step.apply(inverse)", lambda: inv.apply(r.doc))
-                    if r2 is not None and r2.doc is not None:
-                        live.hold_node(r2.doc)
-                sm = call("Step.get_map", st.get_map)
-                live.add("stepmap", sm)
-        elif kind == "stepalg" and len(held_steps) >= 2:
-            a, c = rng.sample(held_steps, 2)
-            name = "Step.merge/map"
-            m = call("Step.merge", lambda: a.merge(c))
-            if m is not None:
-                live.add("step", m)
-            mm = call("Step.map", lambda: a.map(c.get_map()))
-            if mm is not None:
-                live.add("step", mm)
-        elif kind == "query":
-            name = "queries"
+                    live.add("mapping", inv)
+            elif kind == "dom" and dom is not None:
+                name = "DOM"
+                ser, parser = dom
 
-            def q():
-                rp = doc.resolve(f)
-                rp.marks()
-                rp.node_after
-                rp.node_before
-                rp.block_range(doc.resolve(t))
-                doc.nodes_between(f, t, lambda *a: None)
-                doc.text_between(f, t, "\n", "*")
-                doc.node_at(f)
-                doc.check()
-                doc.content.find_diff_start(rng.choice(docs).content)
-                doc.content.find_diff_end(rng.choice(docs).content)
-                doc.can_replace(0, doc.child_count, rng.choice(docs).content)
-                doc.type.content_match.fill_before(doc.content, True)
-            call(name, q)
-        elif kind == "replace":
-            name = "Node.slice/cut/replace"
-            sl = call("Node.slice", lambda: doc.slice(f, t))
-            if sl is not None:
-                live.add("slice", sl)
-                live.add("frag", sl.content)
-            fr = call("Fragment.cut", lambda: doc.content.cut(f, t))
-            if fr is not None:
-                live.add("frag", fr)
-            other = rng.choice(slices) if slices else Slice.empty
-            d2 = call("Node.replace", lambda: doc.replace(f, t, other))
-            if d2 is not None:
-                docs.append(d2)
-                live.hold_node(d2)
-            ap = call("Fragment.append", lambda: doc.content.append(rng.choice(docs).content))
-            if ap is not None:
-                live.add("frag", ap)
-            if doc.child_count:
-                rc = call("Fragment.replace_child", lambda: doc.content.replace_child(0, rng.choice(docs).child(0) if rng.choice(docs).child_count else doc.child(0)))
-                live.add("frag", rc)
-                live.add("frag", call("Fragment.add_to_start", lambda: doc.content.add_to_start(doc.child(0))))
-                live.add("frag", call("Fragment.add_to_end", lambda: doc.content.add_to_end(doc.child(0))))
-                live.add("frag", call("Fragment.from_array", lambda: Fragment.from_array([doc.child(i) for i in range(doc.child_count)])))
-        elif kind == "marks":
-            name = "Mark set ops"
-            m = sg.mark()
-            if m is not None:
-                live.add("mark", m)
-                ms = rng.choice(marksets)
-                r = call("Mark.add_to_set", lambda: m.add_to_set(ms))
-                if r is not None:
-                    live.add("marklist", r)
-                    marksets.append(r)
-                r = call("Mark.remove_from_set", lambda: m.remove_from_set(ms))
-                if r is not None:
-                    live.add("marklist", r)
-                live.add("marklist", call("Mark.set_from", lambda: Mark.set_from(list(reversed(ms)))))
-                pt = rng.choice(list(sch.nodes.values()))
-                live.add("marklist", call("NodeType.allowed_marks", lambda: pt.allowed_marks(ms)))
-        elif kind == "json":
-            name = "to_json/from_json"
-            j = call("Node.to_json", doc.to_json)
-            if j is not None:
-                y = call("Node.from_json", lambda: Node.from_json(sch, json.loads(json.dumps(j))))
-                if y is not None:
-                    live.hold_node(y)
-                scramble(j)      # the returned JSON belongs to the caller
-            if held_steps:
-                st = rng.choice(held_steps)
-                js_ = call("Step.to_json", st.to_json)
-                if js_ is not None:
-                    y = call("Step.from_json", lambda: Step.from_json(sch, json.loads(json.dumps(js_))))
-                    live.add("step", y)
-                    scramble(js_)
-            if slices:
-                sl = rng.choice(slices)
-                j2 = call("Slice.to_json", sl.to_json)
-                if j2 is not None:
-                    scramble(j2)
-        elif kind == "mapping":
-            name = "Mapping ops"
-            tr = rng.choice(trs)
-            mp = tr.mapping
-            call("Mapping.map", lambda: [mp.map(p) for p in range(0, n + 1, 3)])
-            sl_ = call("Mapping.slice", lambda: mp.slice(0, len(mp.maps) // 2))
-            cp = call("Mapping.copy", mp.copy)
-            if cp is not None:
-                live.add("mapping", cp)
-                call("Mapping.append_mapping", lambda: cp.append_mapping(mp))
-                call("Mapping.append_mapping_inverted", lambda: cp.append_mapping_inverted(mp))
-            inv = call("Mapping.invert", mp.invert)
-            if inv is not None:
-                live.add("mapping", inv)
-        elif kind == "dom" and dom is not None:
-            name = "DOM"
-            ser, parser = dom
-
-            def d_():
-                import lxml.html
-                frag = ser.serialize_fragment(doc.content)
-                html = str(frag)
-                back = parser.parse(lxml.html.fragment_fromstring(html, create_parent="document-fragment"))
-                return back
-            back = call("DOMSerializer/DOMParser", d_)
-            if back is not None:
-                live.hold_node(back)
+                def d_():
+                    import lxml.html
+                    frag = ser.serialize_fragment(doc.content)
+                    html = str(frag)
+                    back = parser.parse(lxml.html.fragment_fromstring(html, create_parent="document-fragment"))
+                    return back
+                back = call("DOMSerializer/DOMParser", d_)
+                if back is not None:
+                    live.hold_node(back)
+        except Exception as ex:  # noqa: BLE001 - a corrupted live object can break the driver itself; the snapshot below shows it
+            name = f"{name} (driver saw {type(ex).__name__})"
         b.add({"ev": "Snap", "tid": tid, "seq": seq, "op": name, "snaps": live.snapshot()})
     return live, log
 
@@ -291,7 +332,7 @@ def run(tier: str, seed: int, t0: float) -> int:
     lives = {}
     tid = 0
     for name in schemas.BUNDLED_PLUS:
-        sch2, js2, prs = universe.random_docs(name, 12 if not thorough else 80, rng, size=1.2)
+        sch2, js2, prs = universe.random_docs(name, 20 if not thorough else 80, rng, size=1.7)
         reals = [rd for _, rd in prs]
         slices = []
         for rd in reals:
@@ -310,7 +351,7 @@ def run(tier: str, seed: int, t0: float) -> int:
         except Exception:  # noqa: BLE001
             dom = None
         b = trace.Batch(js2)
-        for k in range(3 if not thorough else 20):
+        for k in range(5 if not thorough else 20):
             tid += 1
             start = rng.sample(reals, min(len(reals), 3))
             # a derived document shares sub-trees with its source
@@ -335,7 +376,7 @@ def run(tier: str, seed: int, t0: float) -> int:
     for key, least in (("verdict:ok", 500), ("max_live_objects", 150)):
         if stats.counts.get(key, 0) < least:
             raise core.MachineryError(f"vacuity gate: {key}={stats.counts.get(key, 0)} < {least}")
-    for op in ("Transform.replace", "Transform.add_mark", "Step.apply", "queries", "Node.slice", "Mark set ops", "to_json", "Mapping ops", "DOM"):
+    for op in ("Transform.replace", "Transform.add_mark", "Step.apply", "queries", "Node.slice", "Mark set ops", "to_json", "Mapping ops", "DOM", "structure helpers"):
         if stats.counts.get("op:" + op, 0) < 3:
             raise core.MachineryError(f"vacuity gate: op:{op}={stats.counts.get('op:' + op, 0)} < 3")
     return core.finish("C10", tier, seed, stats, out, t0,
